@@ -129,6 +129,12 @@ static void do_bn_strin(vf_case *c) {
 	vf_bn_get(zg, C);
 	if (mpz_cmp(zg, ze)) { char b[200]; gmp_snprintf(b, sizeof b, "bn_read_str(\"%s\", radix %d) = %Zd, positional value of the valid prefix is %Zd", s, radix, zg, ze); vf_fail(NULL, "%s", b); }
 	else if (!vf_bn_normal(C)) vf_fail(NULL, "bn_read_str(\"%s\"): result not in normal form (sign %d)", s, C->sign);
+	/* the length argument bounds the text: the same buffer with len - 1 must give the value of the first len - 1 characters only, whatever
+	 * character follows (a number parsed out of a longer record) */
+	if (len >= 2) { size_t l2 = len - 1; j = 0; neg = 0; if (s[0] == '-') { neg = 1; j = 1; } mpz_set_ui(ze, 0);
+		for (; j < l2; j++) { char ch = s[j]; if (radix < 36 && ch >= 'a' && ch <= 'z') ch -= 32; const char *p = ch ? strchr(DIGS, ch) : NULL; if (!p || (p - DIGS) >= radix) break; mpz_mul_ui(ze, ze, (unsigned long)radix); mpz_add_ui(ze, ze, (unsigned long)(p - DIGS)); }
+		if (neg) mpz_neg(ze, ze); bn_zero(C); VF_TRY(th, bn_read_str(C, s, l2, (uint_t)radix)); transitions++; if (th) return; vf_bn_get(zg, C);
+		if (mpz_cmp(zg, ze)) { char b[200]; gmp_snprintf(b, sizeof b, "bn_read_str(\"%s\", len %zu, radix %d) = %Zd: characters beyond the given length were read (value of the first %zu characters is %Zd)", s, l2, radix, zg, l2, ze); vf_fail(NULL, "%s", b); } }
 }
 
 /* ---------------------------------------------------------------- field elements: args prime, len, value */
